@@ -89,6 +89,11 @@ type HarnessConfig struct {
 	Seed      int64
 	Trace     bool
 	Params    map[string]int
+	// Subst maps the full name of a function of the program (as printed by
+	// go/ssa, e.g. "compress/flate.NewWriterDict" or "(*os.File).Write") to
+	// the name of a Go function of the harness package with the same
+	// signature (receiver first) that is executed in its place.
+	Subst map[string]string
 }
 
 type PathSample struct {
@@ -138,6 +143,7 @@ var defaultInitSkip = []string{
 	"oss.terrastruct.com/d2/lib/pdf", "oss.terrastruct.com/d2/lib/pptx", "oss.terrastruct.com/d2/lib/xgif",
 	"oss.terrastruct.com/util-go/xmain", "oss.terrastruct.com/util-go/cmdlog", "oss.terrastruct.com/util-go/xos",
 	"oss.terrastruct.com/util-go/xexec", "oss.terrastruct.com/util-go/xhttp", "oss.terrastruct.com/util-go/xbrowser",
+	"oss.terrastruct.com/util-go/xrand",
 }
 
 func matchPrefix(path string, list []string) bool {
@@ -280,6 +286,17 @@ func (ex *explorer) take() (workItem, bool) {
 func (ex *explorer) worker(w int, pkg *ssa.Package) {
 	in := newInterpreter(ex.p.sh)
 	in.initSkip = ex.hc.skipInit
+	if len(ex.hc.Subst) > 0 {
+		in.subst = map[string]*ssa.Function{}
+		for target, name := range ex.hc.Subst {
+			f := pkg.Func(name)
+			if f == nil {
+				ex.fail("subst: harness function " + name + " not found")
+				return
+			}
+			in.subst[target] = f
+		}
+	}
 	if ex.hc.Trace {
 		in.mode |= EnableTracing
 	}
